@@ -54,7 +54,7 @@ def _case_for(op, simple=False):
     if op == "set_device_name":
         c["B"] = 5
     if op == "control_breeze_device":
-        c.update(separated=True, update=False, req="all")
+        c.update(separated=True, update=False, req="all", simple_state=True)
     return c
 
 
@@ -130,7 +130,8 @@ def run_case(case, eng, res):
                 res["violations"].append({"what": "C03 %s: %s" % (lbl, detail), "case": case, "replay": seq_replay(runs, m, kind, path)})
         mw = path.witness()
         res["witnesses"].append({"replay": seq_replay(runs, mw, kind, path, oracle=None),
-                                 "expected": {"frames": [[C.ev_seq(mw, f).hex() for f in r.frames] for r in runs]}})
+                                 "expected": {"frames": [[C.ev_seq(mw, f).hex() for f in r.frames] for r in runs],
+                                              "blob": [[i for i, f in enumerate(r.frames) if f.has_blob()] for r in runs]}})
         if len(res["samples"]) < 1:
             res["samples"].append({"case": case, "schedule": [l for l in path.labels if l[0] == "sched"][:12],
                                    "frames_per_op": [len(r.frames) for r in runs]})
@@ -142,7 +143,7 @@ def seq_replay(runs, m, kind, path, oracle="C03"):
     ops = []
     for r in runs:
         s = A.replay_spec(r, m, None)
-        ops.append({k: s[k] for k in ("api", "dev_id", "key", "op", "args", "replies", "clock")})
+        ops.append({k: s[k] for k in ("api", "dev_id", "key", "op", "args", "replies", "clock", "remote") if k in s})
     sched = [v for (l, v) in path.labels if l == "sched"]
     return {"kind": "api_seq", "mode": kind, "ops": ops, "schedule": sched, "oracle": oracle}
 
@@ -158,13 +159,17 @@ def main(tier):
         for a in group:
             for b in group:
                 cases.append({"kind": "seq", "ops": [a, b]})
+    # thermostat control: three to four frames per operation, all bound to the same login
+    for a, b in (("control_breeze_device", "control_breeze_device"), ("control_breeze_device", "get_breeze_state"),
+                 ("stop", "control_breeze_device")):
+        cases.append({"kind": "seq", "ops": [a, b]})
     if tier == "thorough":
         rep = ["get_state", "control_device", "set_device_name"]
         for a in rep:
             for b in rep:
                 for c in rep:
                     cases.append({"kind": "seq", "ops": [a, b, c]})
-    inter = [("get_state", "control_device"), ("control_device", "control_device"), ("get_state", "get_shutter_state"),
+    inter = [("control_breeze_device", "set_position"), ("get_state", "control_device"), ("control_device", "control_device"), ("get_state", "get_shutter_state"),
              ("set_position", "stop"), ("get_breeze_state", "get_state"), ("delete_schedule", "set_auto_shutdown")]
     if tier == "thorough":
         allops = t1 + t2
@@ -172,7 +177,19 @@ def main(tier):
     for a, b in inter:
         cases.append({"kind": "inter", "ops": [a, b]})
     results = H.run_cases("harness.C03", "run_case", cases, timeout_ms=120000 if tier == "quick" else 600000)
-    nw = H.validate_call_witnesses(results, cmp=lambda exp, o: o.get("frames") == exp["frames"])
+    def cmp(exp, o):
+        got = o.get("frames")
+        if not got or len(got) != len(exp["frames"]):
+            return False
+        for g, e, bf in zip(got, exp["frames"], exp.get("blob", [[]] * len(got))):
+            if len(g) != len(e):
+                return False
+            for i, (x, y) in enumerate(zip(g, e)):
+                if (x[:-8] != y[:-8]) if i in bf else (x != y):
+                    return False
+        return True
+
+    nw = H.validate_call_witnesses(results, cmp=cmp)
     H.finish(PID, tier, "model_checking", results, t0,
              rule="ordered pairs (thorough: also triples) of operations on one connection with fresh symbolic sessions and clock reads, and two "
                   "API instances whose coroutines are interleaved at every await point (all schedules); a write-set monitor "
